@@ -166,6 +166,15 @@ def fam_timing(seed, n_random, big):
                 sc["ops"] += [["kill"], ["wait"]]
             i += 1
             out.append(sc)
+    # the wall clock is stepped (NTP, `date -s`, a resumed VM) while the call waits: durations are not calendar time
+    for by in (3600 * S, -3600 * S, 2 * S, -S):
+        for d, e in ((2 * S, None), (2 * S, 1500 * MS), (300 * MS, None), (10 * S, 9 * S)):
+            sc = {"id": "t%d" % i, "exit": {"k": "exited", "v": 4, "at": e}, "rt_jump": [100 * MS, by],
+                  "ops": [["wait_timeout", d], ["poll"], ["wait_timeout", d]], "drop": True, "overshoot": 0}
+            if e is None:
+                sc["ops"] += [["kill"], ["wait"]]
+            i += 1
+            out.append(sc)
     for d in huge:
         for e in (None, 0, 2 * S, d // 2, d - 1, d):
             if e is None and not big:
@@ -210,6 +219,14 @@ def fam_drop(seed, n):
             out.append({"id": "dk%d" % i, "exit": {"k": "exited", "v": 1, "at": None}, "ops": list(pre), "drop": True,
                         "kill_latency": lat})
             i += 1
+    # the handle goes out of scope while its owner unwinds from a panic: it is waited for like any other -- no signal
+    # nobody asked for, nothing left behind
+    for at in (0, 5 * MS, 300 * MS):
+        for pre in ([], [["poll"]], [["wait_timeout", 2 * MS]]):
+            for det in (False, True):
+                out.append({"id": "dp%d" % i, "exit": {"k": "exited", "v": 3, "at": at}, "ops": list(pre), "drop": True,
+                            "drop_in_panic": True, "detached": det})
+                i += 1
     for det in ("cfg", "call", None):
         for at in (None, 0, 5 * MS):
             for pre in ([], [["poll"]], [["delay", 10 * MS], ["poll"]], [["wait_timeout", 2 * MS]], [["terminate"]]):
